@@ -4,7 +4,7 @@ CONSTANT Group <- MCGroup
 CONSTANT PureActs <- QuickPure
 CONSTANT Tomos = {"qst", "povmt"}
 CONSTANT Datas = {"d1", "d2"}
-CONSTANT Modes = {"identity", "custom", "inverse_sample_covariance"}
+CONSTANT Modes = {"identity", "custom", "inverse_sample_covariance", "identity+eqonly"}
 CONSTANT AsCoded = FALSE
 CONSTANT Emit = FALSE
 INVARIANT NoResidue
